@@ -8,9 +8,76 @@ Extracted (fail closed when the text changes shape):
                         calculate_leaf_hash / calculate_node_hash prefixes
   sparse/merkle_tree/node.rs   key_size_bits = size_of::<Key>() * 8, create_leaf height 0
   sparse/proof.rs       the `proof_set.len() > 256usize` guard of both verifiers
+  sparse/merkle_tree.rs the ORDER OF EFFECTS inside `update_with_path_set` and `delete_with_path_set`: every
+                        `self.storage.{insert,remove,get}` call, the loops around them, the early return and
+                        `set_root_node`, in textual order (`updateEffects`, `deleteEffects`). Every storage call
+                        in the two functions must be one of the known shapes, otherwise the translator fails.
+                        The refinement proofs (Lemmas/SparseRefine{Insert,Delete}.lean) rely on this order;
+                        Props/C12Store.lean states it as theorems over the generated lists.
 """
 import re, sys
 from common import *
+
+
+def fn_body(src, name):
+    """text between the braces of `fn <name>(...) ... { ... }` (brace matched)"""
+    m = need(re.search(r"\bfn %s\s*\(" % re.escape(name), src), "merkle_tree.rs fn %s" % name)
+    i = src.find("{", m.end())
+    if i < 0:
+        raise TranslateError("merkle_tree.rs fn %s: no body" % name)
+    depth, j = 0, i
+    while j < len(src):
+        if src[j] == "{":
+            depth += 1
+        elif src[j] == "}":
+            depth -= 1
+            if depth == 0:
+                return src[i + 1:j]
+        j += 1
+    raise TranslateError("merkle_tree.rs fn %s: unbalanced braces" % name)
+
+
+# effect name -> regex over the whitespace-normalised function body
+EFFECTS = [
+    ("returnIfSame", r"if requested_leaf_node == actual_leaf_node \{ return Ok\(\(\)\) \}"),
+    ("ifKeysDiffer", r"if requested_leaf_node\.leaf_key\(\) != actual_leaf_node\.leaf_key\(\) \{"),
+    ("joinActual", r"current_node = Node::create_node_on_path\(path, &current_node, actual_leaf_node\);"),
+    ("loopPlaceholders", r"for placeholder in placeholders \{"),
+    ("joinPlaceholder", r"current_node = Node::create_node_on_path\(path, &current_node, &placeholder\);"),
+    ("insertCurrent", r"self\.storage \.insert\(current_node\.hash\(\), &current_node\.as_ref\(\)\.into\(\)\)\?;"),
+    ("removeActual", r"self\.storage\.remove\(actual_leaf_node\.hash\(\)\)\?;"),
+    ("loopMerge", r"for \(side_node, old_parent\) in"),
+    ("removeOldParent", r"self\.storage\.remove\(old_parent\.hash\(\)\)\?;"),
+    ("loopPathNodes", r"for node in path_nodes \{"),
+    ("removePathNode", r"self\.storage\.remove\(node\.hash\(\)\)\?;"),
+    ("getFirstSide", r"self \.storage \.get\(first_side_node\)\?"),
+    ("ifFirstSideLeaf", r"if first_side_node\.is_leaf\(\) \{"),
+    ("findSide", r"side_nodes_iter \.find\(\|side_node\| \*side_node != Node::Placeholder\.hash\(\)\)"),
+    ("findParent", r"path_nodes_iter\.find\(\|parent\| \{ parent\.bytes_lo\(\) == side_node \|\| parent\.bytes_hi\(\) == side_node \}\)"),
+    ("setRoot", r"self\.set_root_node\(current_node\);"),
+]
+
+
+def effects_of(src, name):
+    body = re.sub(r"\s+", " ", fn_body(src, name))
+    found = []
+    for eff, rx in EFFECTS:
+        for m in re.finditer(rx, body):
+            found.append((m.start(), eff))
+    found.sort()
+    seq = [e for _, e in found]
+    # fail closed: every storage call / root assignment in the body must have been recognised
+    n_storage = len(re.findall(r"self\s*\.storage\s*\.", body))
+    n_known = sum(1 for e in seq if e in ("insertCurrent", "removeActual", "removeOldParent", "removePathNode", "getFirstSide"))
+    if n_storage != n_known:
+        raise TranslateError("merkle_tree.rs fn %s: %d storage calls, %d of a known shape" % (name, n_storage, n_known))
+    if len(re.findall(r"set_root_node", body)) != 1 or seq[-1:] != ["setRoot"]:
+        raise TranslateError("merkle_tree.rs fn %s: set_root_node is not the single last effect" % name)
+    if len(re.findall(r"\bfor\b", body)) != sum(1 for e in seq if e.startswith("loop")):
+        raise TranslateError("merkle_tree.rs fn %s: unknown loop" % name)
+    if len(re.findall(r"\breturn\b", body)) != sum(1 for e in seq if e.startswith("return")):
+        raise TranslateError("merkle_tree.rs fn %s: unknown return" % name)
+    return seq
 
 
 def main():
@@ -49,8 +116,12 @@ def main():
         raise TranslateError("proof.rs: expected the proof-set length guard in both verifiers")
     max_len = int(lens[0])
 
+    mt = strip_comments(read("fuel-merkle/src/sparse/merkle_tree.rs"))
+    upd = effects_of(mt, "update_with_path_set")
+    dele = effects_of(mt, "delete_with_path_set")
+
     L = ["/- GENERATED by tools/gen/sparse.py from fuel-merkle/src/{common/prefix.rs,common.rs,sparse/hash.rs,",
-         "   sparse/merkle_tree/node.rs,sparse/proof.rs} — do not edit -/",
+         "   sparse/merkle_tree/node.rs,sparse/proof.rs,sparse/merkle_tree.rs} — do not edit -/",
          "namespace FuelVerif.Gen.Sparse",
          "",
          "/-- `common/prefix.rs` `const NODE` -/",
@@ -64,9 +135,20 @@ def main():
          "/-- `sparse/proof.rs`: both verifiers reject `proof_set.len() > maxProofLen` -/",
          f"def maxProofLen : Nat := {max_len}",
          "",
+         "/-- the effects (storage calls, loops, early return, root assignment) that occur in",
+         "`update_with_path_set` / `delete_with_path_set` of `sparse/merkle_tree.rs` -/",
+         "inductive Effect where",
+         ] + ["  | %s" % e for e, _ in EFFECTS] + [
+         "deriving DecidableEq, Repr",
+         "",
+         "/-- `update_with_path_set`: its effects in textual order -/",
+         "def updateEffects : List Effect := [" + ", ".join("." + e for e in upd) + "]",
+         "/-- `delete_with_path_set`: its effects in textual order -/",
+         "def deleteEffects : List Effect := [" + ", ".join("." + e for e in dele) + "]",
+         "",
          "end FuelVerif.Gen.Sparse", ""]
     changed = write_if_changed("Sparse.lean", "\n".join(L))
-    print("sparse: NODE=%d LEAF=%d key=%d bytes maxProofLen=%d%s" % (node, leaf, key_bytes, max_len, " (changed)" if changed else ""))
+    print("sparse: NODE=%d LEAF=%d key=%d bytes maxProofLen=%d update=%d delete=%d effects%s" % (node, leaf, key_bytes, max_len, len(upd), len(dele), " (changed)" if changed else ""))
 
 
 if __name__ == "__main__":
